@@ -24,16 +24,24 @@ def Answer.find? (m : Answer) (k : String) : Option Cap :=
   | [] => none
   | (k', v) :: rest => if k' = k then some v else Answer.find? rest k
 
+/-- the entry built for a node of the first answer (fixed: weighted like the later ones) -/
+def firstEntry (c : Cap) : Cap :=
+  { cap := c.cap, rate := c.rate * c.weight, usage := c.usage * c.weight, weight := c.weight }
+
+/-- the entry built from the accumulated entry `c1` and a later answer's entry `c2` -/
+def mergeEntry (c1 c2 : Cap) : Cap :=
+  { cap := min c1.cap c2.cap, rate := c1.rate + c2.rate * c2.weight,
+    usage := c1.usage + c2.usage * c2.weight, weight := c1.weight + c2.weight }
+
 /-- mergeCapacity (fixed): the first answer is weighted like the later ones -/
 def mergeCapacity (m1 : Option Answer) (m2 : Answer) : Answer :=
   match m1 with
-  | none => m2.map fun (name, c) => (name, { cap := c.cap, rate := c.rate * c.weight, usage := c.usage * c.weight, weight := c.weight })
+  | none => m2.map fun p => (p.1, firstEntry p.2)
   | some m1 =>
-    m1.filterMap fun (name, c1) =>
-      match m2.find? name with
+    m1.filterMap fun p =>
+      match m2.find? p.1 with
       | none => none
-      | some c2 => some (name, { cap := min c1.cap c2.cap, rate := c1.rate + c2.rate * c2.weight,
-                                 usage := c1.usage + c2.usage * c2.weight, weight := c1.weight + c2.weight })
+      | some c2 => some (p.1, mergeEntry p.2 c2)
 
 /-- the defective mergeCapacity before the fix (first answer taken unweighted), kept for the
     counterexample in Props/C09 -/
